@@ -23,7 +23,7 @@ func init() {
 			"predictions exactly at the two clipping bounds 1e-12 and 1-1e-12 are excluded, as in the statement",
 			"tolerance of the leaf variant: 1e-9 relative + the conditioning bound 4e-16 x ((1-t)/(1-p)^2 + t/p^2)/N of the closed form; upstream programs keep p in (0.002, 0.998)",
 		},
-		FloorQuick: 600, FloorThor: 4000,
+		FloorQuick: 2000, FloorThor: 15000,
 		Run: runC13,
 	})
 }
@@ -38,7 +38,7 @@ func runC13(c *fw.Ctx) {
 				if kind != "ce" && cl > 1 {
 					continue
 				}
-				reps := c.Pick(12, 200)
+				reps := c.Pick(60, 1500)
 				if kind != "ce" {
 					reps *= 4
 				}
@@ -50,7 +50,7 @@ func runC13(c *fw.Ctx) {
 		}
 	}
 	// ---- (ii): upstream programs ----
-	for i := 0; i < c.Pick(1500, 25000); i++ {
+	for i := 0; i < c.Pick(6000, 150000); i++ {
 		c.Case(func(k *fw.K) { c13Upstream(k) })
 	}
 }
